@@ -2,6 +2,7 @@ package main
 
 import (
 	"fmt"
+	"os"
 	"sort"
 	"strings"
 	"sync"
@@ -35,6 +36,48 @@ type Decision struct {
 type NondetRec struct {
 	Kind  string  // "u8", "bool", "choose", "bytes", ...
 	Terms []*Term // variables (or constants for forked choices)
+}
+
+type debugRec struct {
+	label string
+	vals  []Value
+}
+
+// collectTerms gathers the symbolic leaves of a value.
+func collectTerms(v Value, out *[]*Term, depth int) {
+	if depth > 6 {
+		return
+	}
+	switch x := v.(type) {
+	case *Term:
+		if x.op != OpConst {
+			*out = append(*out, x)
+		}
+	case Str:
+		for _, b := range x.b {
+			collectTerms(b, out, depth+1)
+		}
+	case Struct:
+		for _, f := range x {
+			collectTerms(f, out, depth+1)
+		}
+	case ArrVal:
+		for _, f := range x {
+			collectTerms(f, out, depth+1)
+		}
+	case Slice:
+		if x.arr != nil && x.len.op == OpConst {
+			for i := 0; i < int(x.len.val) && i < 32; i++ {
+				collectTerms(*x.arr.slot(x.off + i), out, depth+1)
+			}
+		}
+	case Iface:
+		collectTerms(x.v, out, depth+1)
+	case *Value:
+		if x != nil {
+			collectTerms(*x, out, depth+1)
+		}
+	}
 }
 
 // InputVal is the JSON form of a NondetRec under a model.
@@ -73,6 +116,7 @@ type PathState struct {
 	sqlFiles  map[string]*sqlDB
 	lazy      map[*Term]*lazyDef
 	lazySeen  map[*Term]bool
+	debug     []debugRec
 	uuidCtr   int
 }
 
@@ -419,6 +463,11 @@ func (in *Interp) choose(n int) int {
 		panic(specAbort{})
 	}
 	p := in.path
+	if in.cfg.Fixed != nil && in.cfg.fixedChoose != nil {
+		if v, ok := in.cfg.fixedChoose(in); ok {
+			return v
+		}
+	}
 	if p.pos < len(p.prefix) {
 		d := p.prefix[p.pos]
 		p.pos++
@@ -497,6 +546,16 @@ func (in *Interp) freshVar(w int) *Term {
 // nondetVar creates the next harness input variable.
 func (in *Interp) nondetVar(kind string, w int) *Term {
 	p := in.path
+	if fx := in.cfg.Fixed; fx != nil && len(p.nondet) < len(fx) && len(fx[len(p.nondet)].Vals) > 0 {
+		var c *Term
+		if w == 0 {
+			c = in.tt.Bool(fx[len(p.nondet)].Vals[0] != 0)
+		} else {
+			c = in.tt.BV(w, fx[len(p.nondet)].Vals[0])
+		}
+		p.nondet = append(p.nondet, NondetRec{Kind: kind, Terms: []*Term{c}})
+		return c
+	}
 	v := in.tt.Var(fmt.Sprintf("n%d_%s", len(p.nondet), kind), w)
 	p.nondet = append(p.nondet, NondetRec{Kind: kind, Terms: []*Term{v}})
 	return v
@@ -553,11 +612,29 @@ func (in *Interp) assertTerm(c *Term, msg string) {
 		in.stats.assertsTriv++
 		return
 	}
-	res, vals := in.check(in.tt.Not(c), in.modelVars())
+	mv := in.modelVars()
+	var dbg []*Term
+	for _, d := range in.path.debug {
+		for _, v := range d.vals {
+			collectTerms(v, &dbg, 0)
+		}
+	}
+	res, vals := in.check(in.tt.Not(c), append(mv, dbg...))
 	switch res {
 	case "unsat":
 		in.addPC(c)
 	case "sat":
+		if in.cfg.Trace {
+			for _, t := range dbg {
+				fmt.Fprintf(os.Stderr, "MODEL %s = %d\n", func() string {
+					s := t.String()
+					if len(s) > 100 {
+						s = s[:100]
+					}
+					return s
+				}(), vals[in.solver.ref(t)])
+			}
+		}
 		in.recordViolation("assert", msg, vals)
 		in.abort(abViolation, msg)
 	default:
